@@ -143,3 +143,46 @@ Definition addsub_cells : list (svc * nat * rcls * nat) :=
   flat_map (fun l => flat_map (fun nl => flat_map (fun r => map (fun nr => (l, nl, r, nr)) lens) all_rcls) lens) all_svc.
 Definition cross_cells : list (svc * rcls * nat) :=
   flat_map (fun l => flat_map (fun r => map (fun n => (l, r, n)) lens) all_rcls) all_svc.
+
+(* ------------------------------------------------------------------------------------------------
+   History model: a spatial-vector object is its CURRENT list of values and nothing else (no cache, no hidden field).
+   The list interface (SMUserList / UserList: x[k] = v, append, extend, insert, pop, del, reverse, clear) changes the list;
+   every product is a function of the current list only.  Indices are the in-range non-negative ones (negative /
+   out-of-range index arithmetic is the subject of the list property, not of this one): anything else is None = not modelled.
+   [step]/[run] are polymorphic in the element type so that the same text is evaluated on integer tags (vm_compute) and
+   compared with the implementation's value list after each history, on every run. *)
+Section Hist.
+Context {A : Type}.
+Inductive mut :=
+  | MSet (k : nat) (v : A) | MAppend (v : A) | MExtend (l : list A) | MInsert (k : nat) (v : A)
+  | MPop (k : nat) | MDel (k : nat) | MReverse | MClear.
+
+Definition step (s : list A) (m : mut) : option (list A) :=
+  match m with
+  | MSet k v => if Nat.ltb k (length s) then Some (firstn k s ++ v :: skipn (S k) s) else None
+  | MAppend v => Some (s ++ [v])
+  | MExtend l => Some (s ++ l)
+  | MInsert k v => if Nat.leb k (length s) then Some (firstn k s ++ v :: skipn k s) else None
+  | MPop k | MDel k => if Nat.ltb k (length s) then Some (firstn k s ++ skipn (S k) s) else None
+  | MReverse => Some (rev s)
+  | MClear => Some []
+  end.
+Fixpoint run (s : list A) (h : list mut) : option (list A) :=
+  match h with [] => Some s | m :: h' => match step s m with Some s' => run s' h' | None => None end end.
+End Hist.
+Arguments mut A : clear implicits.
+
+Section HistObs.
+Context {T : Type} (O : ops T).
+(* products of an object whose current value list is s *)
+Definition obs_cross_left (s : list (V6 T)) (m : V6 T) : option (V6 T) :=       (* s.cross(m): the left operand must hold one value *)
+  match s with [v] => Some (mv66 O (crm_ref O v) m) | _ => None end.
+Definition obs_crf_left (s : list (V6 T)) (f : V6 T) : option (V6 T) :=
+  match s with [v] => Some (mv66 O (crf_ref O v) f) | _ => None end.
+Definition obs_apply (M : M66 T) (s : list (V6 T)) : list (V6 T) := map (mv66 O M) s.      (* SE3 * s, v.cross(s), inertia * s *)
+Definition obs_neg (s : list (V6 T)) : list (V6 T) := map (vneg6 O) s.
+Fixpoint zip_with (f : V6 T -> V6 T -> V6 T) (s t : list (V6 T)) : list (V6 T) :=
+  match s, t with a :: s', b :: t' => f a b :: zip_with f s' t' | _, _ => [] end.
+Definition obs_addsub (f : V6 T -> V6 T -> V6 T) (s t : list (V6 T)) : option (list (V6 T)) :=
+  if Nat.eqb (length s) (length t) then Some (zip_with f s t) else None.
+End HistObs.
